@@ -303,7 +303,7 @@ var opsByMode = map[string][]string{
 		"Sample", "Clear", "SetSequenceChar", "ReplaceChar", "Replace", "AutoAlphabet", "RemoveGapSeqs", "RemoveGapSites", "Unalign",
 		"IgnoreIdentical", "SubAlign", "Identical", "TrimSequences", "Compress", "SetAlphabet", "RemoveMajorityCharacterSites", "RemoveCharacterSites",
 		"RemoveCharacterSeqs"},
-	"C04": {"SubAlign", "SubAlign", "SelectSites", "SelectSites", "InverseCoordinates", "InversePositions", "TrimSequences",
+	"C04": {"SubAlign", "SubAlign", "Extract", "Extract", "SelectSites", "SelectSites", "InverseCoordinates", "InversePositions", "TrimSequences",
 		"RefCoordinates", "RefCoordinates", "RefSites", "Concat", "Append", "Split", "Split", "Transpose", "DiffWithFirst", "ReplaceMatchChars", "Rename"},
 	"C06": {"ReverseComplement", "ReverseComplement", "ReverseComplementSequences", "ReverseComplementSequences", "ToUpper", "ToLower", "Unalign", "Clone"},
 	"C12": {"RemoveGapSites", "RemoveCharacterSites", "RemoveCharacterSites", "RemoveMajorityCharacterSites", "RemoveGapSeqs", "RemoveCharacterSeqs", "Clone"},
@@ -594,6 +594,29 @@ func (g *heapGen) args(h *heapRun, op string, recv int, o *obj) *Step {
 			l = 1<<30 + g.rng.Intn(2) // the largest integers (see hugeLen)
 		}
 		a["start"], a["len"] = f64(s), f64(l)
+	case "Extract":
+		if !needAl() {
+			return nil
+		}
+		nb := 1 + g.rng.Intn(3)
+		blocks := []interface{}{}
+		for k := 0; k < nb; k++ {
+			s, e := g.boundary(L), g.boundary(L)
+			if g.rng.Intn(4) != 0 && L > 0 {
+				s = g.rng.Intn(L)
+				e = s + 1 + g.rng.Intn(L-s)
+			}
+			blocks = append(blocks, map[string]interface{}{"s": f64(s), "e": f64(e)})
+		}
+		a["blocks"] = blocks
+		a["minus"] = g.rng.Intn(3) == 0
+		a["code"] = f64([]int{-1, -1, 0, 1, 2}[g.rng.Intn(5)])
+		ref := []int{}
+		if g.rng.Intn(3) == 0 {
+			ref = g.existingName(o)
+			a["code"] = f64(-1) // (translation guided by the reference is TranslateByReference's matter)
+		}
+		a["ref"] = toIface(ref)
 	case "SelectSites", "InversePositions":
 		if !needAl() {
 			return nil
